@@ -175,7 +175,8 @@ namespace nmtools::utl
         }
         ~vector()
         {
-            if (buffer_ && (buffer_size_ > 0)) {
+            // NOTE: a zero-sized allocation still has to be released
+            if (buffer_) {
                 allocator.deallocate(buffer_);
             }
         }
